@@ -216,11 +216,32 @@ func (r *run) checkC01() (out []finding, stats map[string]int) {
 	}
 	delivered := map[int]int{}
 	seqSeen := map[int64]int{}
+	// Self-initiated entries announced through HandleAffected advance the position
+	// without any handler event (by design, issue #1382). From the announcement
+	// on, such an entry counts as covered as soon as it is contiguous with cover;
+	// the manager may apply it later than that (its queue is invisible), which
+	// only makes this oracle more permissive, never stricter.
+	var announced []*entry
+	closure := func(k string) {
+		for moved := true; moved; {
+			moved = false
+			for _, a := range announced {
+				if a.seqKey() == k && a.start() <= cover[k] && a.End > cover[k] {
+					cover[k] = a.End
+					moved = true
+				}
+				if a.seqKey() == k && a.End <= cover[k] {
+					allowed[k][a.End] = true
+				}
+			}
+		}
+	}
 	raise := func(k string, p int) {
 		if p > cover[k] {
 			cover[k] = p
 		}
 		allowed[k][p] = true
+		closure(k)
 	}
 	position := func(k, cls string, req int, at int) {
 		stats["position_observations"]++
@@ -254,6 +275,11 @@ func (r *run) checkC01() (out []finding, stats map[string]int) {
 			if e.Resp != "error" {
 				raise(k, e.Pts)
 			}
+		case "affcall":
+			en := sc.byUID[e.UID]
+			announced = append(announced, en)
+			stats["affected_announcements"]++
+			closure(en.seqKey())
 		case "deliver":
 			en := sc.byUID[e.UID]
 			k := en.seqKey()
@@ -293,6 +319,7 @@ func (r *run) checkC01() (out []finding, stats map[string]int) {
 
 type c02stats struct {
 	owed, exempt, delivered    int
+	affected                   int // self-initiated position-only entries
 	notOwed, lateOwed          int // entries of a channel never seen / before first sight; owed entries of first-seen channels
 	viaPush                    int
 	recoveredMsg, recoveredOth int // delivered entries that a difference had to carry (never applied from a push)
@@ -324,6 +351,10 @@ func (r *run) checkC02() (out []finding, st c02stats) {
 	}
 	co := r.chanOwed(r.trace)
 	for _, e := range r.sc.entries {
+		if e.Kind.isAffected() {
+			st.affected++ // occupies positions, owes nothing to the handler
+			continue
+		}
 		if !owedAt(co, e, end) {
 			st.notOwed++
 			continue
@@ -387,7 +418,7 @@ func (r *run) checkC03() (out []finding, writes int) {
 	co := r.chanOwed(r.trace)
 	check := func(w tev, key string, pos int) {
 		for _, e := range r.sc.entries {
-			if e.seqKey() != key || e.End > pos || del[e.UID] {
+			if e.seqKey() != key || e.End > pos || del[e.UID] || e.Kind.isAffected() {
 				continue
 			}
 			if e.Cls == clsChan && e.End <= co[e.Ch].from {
@@ -494,8 +525,8 @@ func (r *run) restartCheck(t int, seed uint64) (out []finding, r2 *run) {
 		if _, ok := d2[e.UID]; ok {
 			continue
 		}
-		if !owedAt(co, e, t) {
-			continue // channel not (yet) taken on by the library at the crash point
+		if e.Kind.isAffected() || !owedAt(co, e, t) {
+			continue // position-only entry, or channel not (yet) taken on by the library at the crash point
 		}
 		x1 := exemptAt(ex1, e, t+1)
 		if x1 == 2 || exemptAt(ex2, e, len(r2.trace)) == 2 {
